@@ -10,6 +10,12 @@ fd, path = tempfile.mkstemp(suffix='.xml')
 os.close(fd)
 env = dict(os.environ)
 env.pop('T4GC_VERIF', None)
+# the suite contains unseeded Hypothesis tests (test_normalized,
+# test_adjust_matrix) that very occasionally fail on denormal floats; keep
+# their example database out of the tree so that such a failure is not
+# replayed for ever
+hypdir = tempfile.mkdtemp(prefix='t4gc_hyp_')
+env['HYPOTHESIS_STORAGE_DIRECTORY'] = hypdir
 cmd = ['/venv/bin/python', '-m', 'pytest', '-ra', '-q', '-p', 'no:cacheprovider',
        '--timeout=900', '--continue-on-collection-errors', '--junitxml=' + path]
 proc = subprocess.run(cmd, cwd=repo, env=env, capture_output=True, text=True)
@@ -20,6 +26,8 @@ for tc in ET.parse(path).getroot().iter('testcase'):
     if not bad:
         passed.add(name)
 os.unlink(path)
+import shutil
+shutil.rmtree(hypdir, ignore_errors=True)
 missing = [t for t in base['stable_pass'] if t not in passed]
 print('passed %d, baseline %d, missing %d' % (len(passed), len(base['stable_pass']), len(missing)))
 for m in missing:
